@@ -81,6 +81,11 @@ fn main() {
             let (shard, nshards, count) = (n(3, 0), n(4, 1).max(1), n(5, 10));
             std::process::exit(props::miri_shard(kind, seed, shard, nshards, count));
         }
+        "parse-only" => {
+            // parse-only <file>: tokenize + parse one file and exit; run under
+            // `valgrind --tool=cachegrind --cache-sim=no` by C17 to obtain an instruction count
+            std::process::exit(props::c17::parse_only(args.get(2).map(String::as_str).unwrap_or("")));
+        }
         "show" => {
             // show <prop> <tier> <section> <idx>: print the input of a case without running it
             let Some(p) = props::find(&args[2]) else { usage() };
